@@ -607,3 +607,51 @@ pub fn search_sim(prop: &str, seed: u64, first: u64, n_evals: u64, thorough: boo
     }
     out
 }
+
+// ------------------------------------------------------------------------------------------------
+// model correspondence on simulator histories
+
+/// Runs simulated cluster scenarios of `prop` and replays every instance's call history (its setup and
+/// every datagram, timer and API call it processed, in order) through the Lean model, comparing results,
+/// effects, observable state, hidden state and RNG use call by call.
+pub fn sim_corr(prop: &str, seed: u64, first: u64, ops_budget: u64, thorough: bool) -> crate::run::CorrResult {
+    use crate::run::{run_case, Case, CorrResult, Stats};
+    let mut drv = crate::driver::Driver::spawn().expect("cannot start the Lean driver");
+    let mut stats = Stats::default();
+    let mut failures = Vec::new();
+    let mut ci = first;
+    while stats.ops < ops_budget && ci < first + 1_000_000 {
+        let mut r = Sm::new(seed.wrapping_mul(0x51C0FFEE).wrapping_add(ci).wrapping_add(fnv(prop)));
+        let p = gen_params(prop, &mut r, seed, ci, thorough);
+        ci += 1;
+        crate::sim::HIST_SINK.with(|h| *h.borrow_mut() = Some(Vec::new()));
+        let _ = std::panic::catch_unwind(|| run_sim_prop(prop, &p));
+        let hs = crate::sim::HIST_SINK.with(|h| h.borrow_mut().take()).unwrap_or_default();
+        stats.bump(&format!("scenario.n.{}", pu(&p, "n", 0)));
+        for (setup, ops) in hs {
+            stats.cases += 1;
+            stats.ops += ops.len() as u64;
+            for o in &ops {
+                stats.bump(&format!("op.{}", o.kind()));
+            }
+            stats.bump(&format!("history.len.{}", match ops.len() { 0..=9 => "<10", 10..=99 => "<100", 100..=999 => "<1000", _ => ">=1000" }));
+            let case = Case { setup, ops };
+            let h = fnv(&case.text());
+            stats.distinct.insert(h);
+            if case.ops.len() >= 10 {
+                stats.nontrivial_distinct.insert(h);
+            }
+            if let Some(m) = run_case(&mut drv, &case) {
+                let mut small = case.clone();
+                small.ops.truncate(m.op_index + 1);
+                failures.push((small, m));
+                if failures.len() >= 2 {
+                    stats.draws = drv.draws_answered;
+                    return CorrResult { stats, failures };
+                }
+            }
+        }
+    }
+    stats.draws = drv.draws_answered;
+    CorrResult { stats, failures }
+}
